@@ -80,10 +80,15 @@ def wrapper_overlay(w):
 _coq_eval_cases = vlib.coq_eval_cases
 
 
+def _shards(n, shard=400):
+    return max(2, min(shard, -(-n // (2 * vlib.NCPU))))
+
+
 def _coq_eval_cases_sharded(prop, check_module, terms, preamble="", shard=400, timeout=900):
-    if prop == "C01" and terms:
-        shard = max(2, min(shard, -(-len(terms) // (2 * vlib.NCPU))))
-    return _coq_eval_cases(prop, check_module, terms, preamble=preamble, shard=shard, timeout=timeout)
+    if prop != "C01" or not terms:
+        return _coq_eval_cases(prop, check_module, terms, preamble=preamble, shard=shard, timeout=timeout)
+    rs = _coq_eval_cases(prop, check_module, terms, preamble=preamble, shard=_shards(len(terms), shard), timeout=timeout)
+    return PROPERTY.confirm(check_module, terms, list(rs), preamble, timeout)
 
 
 vlib.coq_eval_cases = _coq_eval_cases_sharded
@@ -226,8 +231,53 @@ class C01(Property):
                    "the acceptability predicate and the fallback are pure and do not re-enter the breaker",
                    "a request does not re-enter a breaker it is running under (such call trees are interleavings: concurrent model)"]
 
+    # ---- second line of defence against a disturbed executor run (loaded machine, OS resources):
+    # an observation on which prop_ok or agrees fails is taken again, alone, in fresh executor
+    # processes; the failure is kept only if it persists.  A discarded first observation is logged
+    # in the evidence notes.  (Called from the wrapped vlib.coq_eval_cases above, i.e. for the main
+    # run, the shrinker's candidates and the search alike.)
+    CONFIRM_MAX = 40
+
+    def confirm(self, check_module, terms, rs, preamble, timeout):
+        bad = [i for i, r in enumerate(rs) if tuple(r) != (True, True)]
+        pend = getattr(self, "_pending", {})
+        bad = [i for i in bad if terms[i] in pend][:self.CONFIRM_MAX]
+        if not bad:
+            return rs
+        import copy
+        cases2 = [copy.deepcopy(pend[terms[i]][0]) for i in bad]
+        try:
+            obs2 = self._execute_once(cases2)
+            terms2 = [self._render(c, o) for c, o in zip(cases2, obs2)]
+            rs2 = _coq_eval_cases("C01", check_module, terms2, preamble=preamble,
+                                  shard=_shards(len(terms2)), timeout=timeout)
+        except Exception as e:      # the re-run itself broke: keep the first observations
+            self._note("re-run of %d failing observation(s) did not complete (%s): first observations kept" % (len(bad), str(e)[-300:]))
+            return rs
+        for i, o2, r2 in zip(bad, obs2, rs2):
+            case, o1 = pend[terms[i]]
+            if tuple(r2) == (True, True):
+                import json
+                self._note("case %s (%s): first observation gave agrees=%s prop_ok=%s but was NOT reproduced in a fresh executor "
+                           "process (agrees=True prop_ok=True): discarded; first observation: %s"
+                           % (case.get("id"), case.get("w") or ("multi" if case.get("insts") else "conc" if case.get("conc") else "seq"),
+                              rs[i][0], rs[i][1], json.dumps(o1)[:1500]))
+                o1.clear()
+                o1.update(o2)           # the runner's record now holds the reproducible observation
+                rs[i] = tuple(r2)
+        return rs
+
+    def _note(self, text):
+        ctx = getattr(self, "_ctx", None)
+        if ctx is not None:
+            ctx.notes.append(text)
+        vlib_log = getattr(vlib, "log", None)
+        if vlib_log:
+            vlib_log("C01: " + text[:400])
+
     # ---- translator
     def regen(self, ctx):
+        self._ctx = ctx
         vals, changed = regen_constants()
         self.consts = vals
         return ["C01Consts.v %s: window=%s buckets=%s forcePass=%s k=%s minK=%s protection=%s"
@@ -676,6 +726,12 @@ class C01(Property):
 
     # ---- execution
     def execute(self, cases, ctx):
+        if ctx is not None:
+            self._ctx = ctx
+        self._pending = {}
+        return self._execute_once(cases)
+
+    def _execute_once(self, cases):
         # the executors key their output by case id: make ids unique within this batch
         saved = [c.get("id") for c in cases]
         for i, c in enumerate(cases):
@@ -737,6 +793,12 @@ class C01(Property):
         return "MNoBreaker %d%%nat %s" % (op["nop"][0], cz(op["nop"][1]))
 
     def coq_case(self, case, obs):
+        term = self._render(case, obs)
+        if getattr(self, "_pending", None) is not None:
+            self._pending[term] = (case, obs)
+        return term
+
+    def _render(self, case, obs):
         if case.get("insts"):
             named = clist([cbool(k == 1) for k in case["insts"]])
             ops = clist([self._mop(op) for op in case["mops"]])
